@@ -4,6 +4,7 @@ import Req.Client.Multipart
 import Req.Client.Body
 import Req.Client.Progress
 import Req.Client.EarlyResponse
+import Req.Client.UploadReader
 /-! Driver lanes of C17. -/
 namespace Req.Driver.L.C17
 open Req.Proto
@@ -276,7 +277,39 @@ def laneEarly : List String → String
     r.getD "bad-op"
   | _ => "bad-op"
 
+/-! ### files given by a reader -/
+
+def mkScript : List Nat → List Bytes → Option (List Req.UploadReader.Rd)
+  | [], [] => some []
+  | k :: ks, b :: bs => do
+    let r ← mkScript ks bs
+    match k with
+    | 0 => pure (.data b :: r)
+    | 1 => pure (.eof b :: r)
+    | 2 => pure (.fail b :: r)
+    | _ => none
+  | _, _ => none
+
+/-- `c17reader <opens> <kinds 0=data 1=eof 2=fail> <chunks>` → `err`, or `ok <bytes of the first read>
+<part content>` (`writeMultipartFormFile` on a scripted reader). -/
+def laneReader : List String → String
+  | [op, kinds, chunks] =>
+    match decodeNatList kinds, decodeList chunks with
+    | some ks, some cs =>
+      match mkScript ks cs with
+      | none => "bad-op"
+      | some script =>
+        if Req.UploadReader.succeeds (op == "1") script then
+          match Req.UploadReader.writeFile (op == "1") script, Req.UploadReader.readCap Req.UploadReader.sniffCap script with
+          | some r, (.data b, _) => "ok " ++ toString b.length ++ " " ++ encodeHex r.written
+          | some r, (.eof b, _) => "ok " ++ toString b.length ++ " " ++ encodeHex r.written
+          | _, _ => "err"
+        else "err"
+    | _, _ => "bad-op"
+  | _ => "bad-op"
+
 def lanes : List (String × (List String → String)) := [
+  ("c17reader", laneReader),
   ("c17early", laneEarly),
   ("c17ordered", laneOrdered),
   ("c17form", laneForm),
